@@ -7,6 +7,7 @@
      op    i<id>:<key>  insert a fresh node <id> with key <key>      (history kinds)
            d<id>        remove node <id> (if present) and free it
            t<id>        hand-linked root;  l<id>:<pid> / g<id>:<pid>  left / right child of <pid>
+           s<id>        start the tear-down at node <id> instead of at the root (a_*_tear's `next` argument on entry)
    stdout: canonical lines (ids only, never addresses), see checks/C03.py.
    Every node is its own malloc block and is free()d as soon as tear hands it out (ASan on). */
 #define _POSIX_C_SOURCE 200809L
